@@ -26,7 +26,7 @@ CHECKS["C02"] = dict(
     text="Every precondition of the bounded grammar x every type-correct call x every state of the relevant universe x operand-iteration orders (deviation-bounded DFS over set orders), object-declaration orders and one Operator re-used over successive states is queried on the real Operator and compared with the reference truth value: full truth tables instead of spot facts.",
     note=_REF, technique="bounded-exhaustive formula x state x call enumeration + deviation-bounded exploration of set-iteration orders, reference-model oracle")
 CHECKS["C03"] = dict(
-    text="Every effect program of the bounded grammar x every applicable consistent (state, call) x effect-collection orders, object-declaration orders and one Operator re-used over successive states is applied on the real Operator; the whole serialized successor (frame included) is compared with the reference successor, and every explored order must give that same state.",
+    text="Every effect program of the bounded grammar x every applicable consistent (state, call) x effect-collection orders, object-declaration orders one Operator re-used over successive states (with refused applications in between) and over its own successors, and the skip_validation / allow_inapplicable_actions switches on applicable actions, is applied on the real Operator; the whole serialized successor (frame included) is compared with the reference successor, and every explored order must give that same state.",
     note=_REF, technique="bounded-exhaustive program x state x call enumeration + deviation-bounded exploration of effect-set iteration orders, reference-model oracle")
 CHECKS["C08"] = dict(
     text="Every generated in-fragment program and every shipped domain file goes through export -> parse -> export -> parse under every explored iteration order of the exporter's sets; vocabulary, structure and the implementation's own behaviour table before and after are compared.",
@@ -38,10 +38,10 @@ CHECKS["C20"] = dict(
     text="Every program of the bounded corpus x every type-correct call is grounded by the real Operator (with and without the problem objects; re-read after the operator was applied) and the reported grounded literals / expressions / typed forms are compared with positional substitution computed from the source text.",
     note=_REF, technique="bounded-exhaustive program x call enumeration, substitution oracle computed from the source text")
 CHECKS["C04"] = dict(
-    text="All plans (every sequence of type-correct calls, applicable or not) up to the length bound over three mini-domains are executed through TrajectoryExporter.parse_plan (sequence, three plan-file layouts, allow switch) and by direct Operator.apply chaining; every triplet, the chaining and the exported text are compared step by step with the reference transition function.",
+    text="All plans (every sequence of type-correct calls, applicable or not) up to the length bound over three mini-domains are executed through TrajectoryExporter.parse_plan (sequence, three plan-file layouts, allow switch) by direct Operator.apply chaining, and on ONE State object that is overwritten in place with every step's successor; every triplet, the chaining and the exported text are compared step by step with the reference transition function.",
     note=_REF, technique="exhaustive enumeration of operation sequences (plans) up to a depth bound, reference-model step oracle")
 CHECKS["C05"] = dict(
-    text="Every problem text of the bounded generator and every single-point corruption of the base problems is parsed by the real ProblemParser; valid ones must be reproduced exactly, corrupted ones rejected - a confusion matrix by corruption kind instead of a few examples.",
+    text="Every problem text of the bounded generator and every single-point corruption of the base problems is parsed by the real ProblemParser; valid ones must be reproduced exactly (and still read the same after the next problem was parsed over the same Domain object), corrupted ones rejected - a confusion matrix by corruption kind instead of a few examples.",
     note=_REF, technique="bounded-exhaustive input enumeration + exhaustive single-point fault injection")
 CHECKS["C06"] = dict(
     text="All labelled type forests up to the size bound under every regrouping and every permutation of their declaration lines are parsed; is_sub_type is compared with the reflexive-transitive closure on all pairs, and every use site (facts, fluents, constants, goals, forall conditions and effects) on all (object type, required type) pairs.",
@@ -57,7 +57,7 @@ CHECKS["C10"] = dict(
     text="Every trajectory produced by all plans up to the length bound (incl. repeated-argument fluents, zero-arity atoms, inapplicable steps), joint trajectories with nop entries, and the shipped trajectory files are serialized and parsed back with and without the problem's object table; actions, states and chaining are compared.",
     note=_REF, technique="exhaustive enumeration of plan histories up to a depth bound, round-trip oracle")
 CHECKS["C14"] = dict(
-    text="Every state of a small universe is built along several routes (parsers, copies, successors); == is compared with the reference identity on all ordered pairs x all route pairs, every object is serialized and re-read, every copy is mutated both ways.",
+    text="Every state of a small universe is built along several routes (parsers, copies, successors); == is compared with the reference identity on all ordered pairs x all route pairs, every object is serialized and re-read, every copy is mutated both ways; successors are re-read after the operator that produced them was applied again, the states at the step boundaries of a parsed trajectory are changed in place one at a time, and one TrajectoryParser is used again after a rejected state.",
     note=_REF, technique="exhaustive enumeration of all state pairs of a bounded universe x construction routes")
 CHECKS["C12"] = dict(
     text="Every binary expression tree up to the node bound is evaluated on every valuation of a rational grid, directly and through one-condition / one-effect actions, against exact Fraction arithmetic; comparison truth is checked at 0, 1/2, ~1 and 2 tolerances apart at several magnitudes under three EPSILON configurations and printing under three NUMERIC_PRECISION configurations, each configuration in its own interpreter.",
@@ -66,7 +66,7 @@ CHECKS["C15"] = dict(
     text="ALL valid sequential plans up to the length bound (BFS over applicable actions, replacing random walks) over three multi-agent mini-domains are converted by the real PlanConverter in two file layouts with and without the concurrency constraint; the joint plan is checked for action preservation, per-agent order, slot layout, member applicability, semantic non-interference and final state under the reference interpreter.",
     note=_REF + "; one recorded finding (KF-C15-1: interference through atoms is not detected)", technique="exhaustive enumeration of valid operation sequences up to a depth bound, reference-interpreter oracle")
 CHECKS["C16"] = dict(
-    text="Every joint action (one call or nop per agent) x every state of the members' joint relevant universe x every slot permutation is applied by the real apply_actions and compared with sequential reference application (defined only for semantically non-interfering members); refusal and the allow switch on every exactly-one-inapplicable case; exported joint trajectories of all 1-2 step joint plans.",
+    text="Every joint action (one call or nop per agent) x every state of the members' joint relevant universe x every slot permutation is applied by the real apply_actions and compared with sequential reference application (defined only for semantically non-interfering members); refusal and the allow switch on every exactly-one-inapplicable case (and on every all-applicable case, where it must change nothing); exported joint trajectories of all 1-2 step joint plans incl. all-idle steps and parameterless members, strict / lenient / strict on one exporter.",
     note=_REF, technique="bounded-exhaustive joint-action x state x member-order enumeration, reference-model oracle")
 CHECKS["C17"] = dict(
     text="All splits of a base domain and problem into overlapping per-agent files x every discovery order (Path.glob seam) x dummy-action switch are combined by the real converters; the combination is compared with the set union, re-exported and re-parsed, and the purity of Domain() defaults and of earlier / later parsed domains is checked after every combination.",
@@ -75,5 +75,5 @@ CHECKS["C19"] = dict(
     text="A 145-plan family (step counts at every digit-width boundary x rotations of a (name, arity) alphabet) is rendered as Metric-FF logs under every header x trailer and every layout with <= D deviations, as no-plan logs, and as ENHSP files; status, returned steps and written plan file are compared with the generating plan.",
     note="trusted: the log generator (the generating plan is the specification) and the comparison code", technique="bounded-exhaustive enumeration of log renderings (deviation-bounded layout space) against a generating-plan oracle")
 CHECKS["C13"] = dict(
-    text="Every expression tree up to the node bound in two coefficient sub-spaces (exactly representable; near-integers and short decimals under every digit setting 0-6) and every set of 1-3 conditions with 0-2 eliminable equalities is simplified through all five entry points of the real library; the output is re-read by the library's own reader, checked to use only binary + - * /, normalised by an independent exact rational-function algebra (pv.polyalg) and evaluated on a rational grid against the input.",
+    text="Every expression tree up to the node bound in two coefficient sub-spaces (exactly representable; near-integers and short decimals under every digit setting 0-6) and every set of 1-3 conditions with 0-2 eliminable equalities is simplified through all five entry points of the real library, also in call histories over colliding fluent texts and in edit histories (remove / add a condition between two prints); the output is re-read by the library's own reader, checked to use only binary + - * /, normalised by an independent exact rational-function algebra (pv.polyalg) and evaluated on a rational grid against the input.",
     note="trusted: pv.polyalg (exact Fraction polynomials / rational functions, self-tested with python -m pv.polyalg), pv.gens.exprs, pv.sexp; sympy is only ever run inside the library under test", technique="bounded-exhaustive enumeration of expression trees x coefficient classes x digit settings x entry points, exact-algebra equivalence oracle")
